@@ -951,7 +951,7 @@ def scalar_nodes():
 
 
 LITERAL_SETS = [
-    (0, 1), (False, True), (0, True), (1, False, "a"), ("a", "b"), ("a",), (1, 2, 3), (0, 1, 2, 3, 4), (False, True, 2, 3, 4, 5),
+    (0, 1), (False, True), (0, True), (False, 1), ("x", 0, True), ("x", False, True), (1, False, "a"), ("a", "b"), ("a",), (1, 2, 3), (0, 1, 2, 3, 4), (False, True, 2, 3, 4, 5),
     ("a", "b", "c", "d", "e", "f"), (EInt.A, "z"), (EInt.A, EInt.B), (EStr.X, 5), (b"abc", "q"), (b"abc", 1), (b"", b"ab", EInt.C, 7),
     (None, 1), (IE.ONE, 2), (10, 20, 30, 40, 50, "x"), (EInt.A, IE.FIVE, "t"),
 ]
